@@ -12,7 +12,7 @@ pub fn spec(tier: Tier) -> RunSpec {
         "files of length L in {0,1,2,3,10,4095..4097,8191..8193,9999..10001,65535..65537} (thorough adds 1 MiB +-1) with position-dependent content (a wrong offset is always visible), reached directly, \
 through a directory index and through the .html fallback, x Range values 'bytes=' + 1..6 specs (a-b, a-, -n) joined by ',' with optional blanks, every offset drawn from {0,1,L-2,L-1,L,L+1,2^63,u64::MAX,u64::MAX+1,20-digit junk, non-numeric, empty, random inside}, \
 plus malformed shapes (a-b-c, wrong unit, missing '=', '+5', blanks around '-'). Oracle M-RANGE (the harness parses the header per RFC 7233 itself): all specs valid and inside the file -> 206, per range in request order exactly file[a..=b], \
-Content-Range 'bytes a-b/L', single range Content-Length = b-a+1, several ranges one multipart/byteranges body; otherwise 416 or a 206 whose every part is self-consistent (label s-e/L with s<=e and bytes == file[s..=min(e,L-1)]). \
+Content-Range 'bytes a-b/L', single range Content-Length = b-a+1, several ranges one multipart/byteranges body; otherwise 416 or a 206 whose every part is self-consistent (label s-e/L with s<=e and bytes == file[s..=min(e,L-1)]) and, when every spec names its offsets in digits of whatever length, lies inside what one of the specs asked for (read with arbitrary precision: an offset of 2^64 is not offset 0). \
 8 % of the cases rewrite the file in place (same length, other content) after it has been served once: the bytes must be those of the file as it is when the ranged request arrives. Section ranges-binary: the same generator against the real release binary serving the same docroot over loopback (a quarter of the in-process volume). Non-trivial = an offset within 1 of 0 or L, a suffix or open-ended spec, >= 2 specs, or an overflow candidate; distinct by (L, path kind, header).",
         &["'valid' follows RFC 7233 ABNF: unit 'bytes', digits only, no blanks inside a spec; everything else is in the tolerant class"],
         if tier == Tier::Quick { 900 } else { 14400 },
@@ -120,6 +120,24 @@ fn parse_rfc(value: &str) -> Option<Vec<Spec>> {
     Some(out)
 }
 
+/// What each spec of a Range value asks for, as closed spans of offsets, read with arbitrary precision (digit strings longer than a u128 count as
+/// u128::MAX). None: wrong unit, or some spec is not of the shapes digits-digits / digits- / -digits (blanks around the pieces are ignored).
+fn requested_spans(value: &str, l: u64) -> Option<Vec<(u128, u128)>> {
+    let rest = value.strip_prefix("bytes=")?;
+    let num = |t: &str| -> Option<u128> { let t = t.trim_matches(|c| c == ' ' || c == '\t'); if t.is_empty() || !t.bytes().all(|b| b.is_ascii_digit()) { return None; } Some(t.trim_start_matches('0').parse::<u128>().unwrap_or(if t.trim_start_matches('0').is_empty() { 0 } else { u128::MAX })) };
+    let mut out = vec![];
+    for spec in rest.split(',') {
+        let spec = spec.trim_matches(|c| c == ' ' || c == '\t');
+        let (a, b) = spec.split_once('-')?;
+        let (a_blank, b_blank) = (a.trim_matches(|c| c == ' ' || c == '\t').is_empty(), b.trim_matches(|c| c == ' ' || c == '\t').is_empty());
+        if a_blank && b_blank { return None; }
+        if a_blank { let n = num(b)?; let n = n.min(l as u128); if n == 0 || l == 0 { out.push((1, 0)); } else { out.push((l as u128 - n, l as u128 - 1)); } }
+        else if b_blank { out.push((num(a)?, u128::MAX)); }
+        else { out.push((num(a)?, num(b)?)); }
+    }
+    Some(out)
+}
+
 pub fn eval(ctx: &Ctx, c: &Case) -> Verdict {
     let k = match c.rewrite { Some(k) if c.len > 0 => k, _ => return eval_with(ctx, c, file_content(c.len)) };
     // served once with the original content (ranged and whole), then rewritten in place: same path, same length, typically the same second
@@ -204,6 +222,9 @@ fn eval_with(ctx: &Ctx, c: &Case, file: Vec<u8>) -> Verdict {
                 416 => { classes.push("answered-416"); }
                 206 => {
                     classes.push("answered-206-tolerated");
+                    // "never with bytes from other offsets": when every spec of the header names its offsets in digits (of any length), each served
+                    // slice has to lie inside what one of them asked for (arbitrary-precision reading; a spec of other shape leaves this undecided)
+                    let spans = requested_spans(&c.value, l);
                     for (i, (label, bytes)) in served.iter().enumerate() {
                         match mhttp::parse_content_range(label) {
                             None => { problems.push(("content-range-unparseable".into(), format!("part {} label {:?}; {}", i, label, ctxt))); break; }
@@ -213,6 +234,13 @@ fn eval_with(ctx: &Ctx, c: &Case, file: Vec<u8>) -> Verdict {
                                 if size != l || s > e || bytes.as_slice() != want {
                                     problems.push(("inconsistent-slice-for-unsatisfiable-range".into(), format!("part {}: label {:?} (file size {}), {} bytes served, {} bytes at those offsets; {}", i, label, l, bytes.len(), want.len(), ctxt)));
                                     break;
+                                }
+                                if let (Some(spans), Some(h)) = (&spans, hi) {
+                                    if s <= h && !spans.iter().any(|(a, b)| (s as u128) >= *a && (h as u128) <= *b) {
+                                        classes.push("slice-outside-every-requested-range");
+                                        problems.push(("bytes-from-offsets-nobody-asked-for".into(), format!("part {}: label {:?} lies outside every requested range {:?}; {}", i, label, spans, ctxt)));
+                                        break;
+                                    }
                                 }
                             }
                         }
